@@ -143,6 +143,7 @@ func (cl *closure4) orderedVars(name string) []string {
 // the file
 
 func buildKernels4(repo string, specs3, specs4 []k3spec) (string, []string) {
+	repoRoot5 = repo
 	g := &g3{repo: repo, imp: newSrcImporter(), pkgs: map[string]*pkgInfo{}, funcs: map[string]*fsig3{},
 		declSeen: map[string]bool{}, sentSeen: map[string]bool{}, inProg: map[string]bool{}, sumAlts: map[string][]alt3{},
 		consts: &tableSet{defs: map[string]string{}, lens: map[string]int{}}}
@@ -410,6 +411,7 @@ func buildKernels4(repo string, specs3, specs4 []k3spec) (string, []string) {
 		}
 	}
 	sb.WriteString("\nEnd K4.\n")
+	sb.WriteString(sortSitesText5(g.sortSites, true))
 	return sb.String(), nil
 }
 
